@@ -27,13 +27,18 @@ def tree_sha(repo=None):
     return h.hexdigest()
 
 
-def _prune(cache_root, keep):
+def _prune(cache_root, keep, min_age_s=4 * 3600):
+    """Remove old cache directories: beyond the `keep` most recent ones AND unused for hours, so a cache that a
+    concurrently running check still uses is never taken away."""
+    import time
     try:
         ds = [os.path.join(cache_root, d) for d in os.listdir(cache_root)]
         ds = [d for d in ds if os.path.isdir(d)]
         ds.sort(key=os.path.getmtime, reverse=True)
+        now = time.time()
         for d in ds[keep:]:
-            shutil.rmtree(d, ignore_errors=True)
+            if now - os.path.getmtime(d) > min_age_s:
+                shutil.rmtree(d, ignore_errors=True)
     except OSError:
         pass
 
